@@ -31,6 +31,7 @@ type Globals struct {
 	Init       map[*ssa.Global]AV    // value stored by the synthetic initialiser
 	Objs       State                 // contents of objects created by initialisers
 	MapBits    map[*ssa.Global]int64 // set by T3: lookup map -> width of its values
+	MapNonNil  map[*ssa.Global]bool  // set by T3: every read of the map variable comes after its construction (a fresh make): never nil
 	InitNotes  []string
 	InitEvents []Event
 	AllGlobals []*ssa.Global // globals of root + wordlist, sorted by name
@@ -121,6 +122,28 @@ func BuildGlobals(p *Program) *Globals {
 		}
 		g.InitNotes = e.Notes
 		g.InitEvents = e.Events
+	}
+	// the generator's initialiser, for the values of its own package variables (command-line
+	// options and their defaults); its events are of no interest to the library rules
+	if p.Gen != nil {
+		if init := p.Gen.Func("init"); init != nil {
+			e := NewEval(p, g, &Ctx{Name: "init(generator)"})
+			e.initMode = true
+			e.objs = 5000
+			e.Run(init)
+			for k, v := range e.GlobalInit {
+				if k.Pkg == p.Gen {
+					if _, done := g.Init[k]; !done {
+						g.Init[k] = v
+					}
+				}
+			}
+			for k, v := range e.GlobalObj {
+				if _, done := g.Objs[k]; !done {
+					g.Objs[k] = v
+				}
+			}
+		}
 	}
 	return g
 }
@@ -222,6 +245,11 @@ func (g *Globals) load(e *Eval, gl *ssa.Global, t types.Type) AV {
 				e.Relied[gl] = true
 				return iv
 			}
+		}
+		if pv, ok := g.Init[gl].(PtrV); ok && pv.Ext != nil {
+			// a pointer to a value the program only reads (a command-line option and its default)
+			e.Relied[gl] = true
+			return pv
 		}
 	case *types.Interface:
 		return GlobalValV{G: gl}
